@@ -21,7 +21,7 @@ BOUNDS = {"quick": "12 JSON classes + 6 fake-store classes, 9 argument shapes", 
 ASSUMPTIONS = ["server backends against fake stores (the MongoDB fake deep-copies documents both ways, as pymongo does)"]
 
 SHAPES = [{}, [], {"a": 0}, [0], {"p": {"q": [1, {"r": 2}]}}, [[1, {"a": [2]}]], {"a": [], "b": {}}, [{}, []],
-          {"x": [[[]]]}]
+          {"x": [[[]]]}, (1, [2]), {"p": ({"k": [3]},)}, [([4], {"t": (5, [6])})]]
 MORE = [[[[0]]], {"a": {"b": {"c": {}}}}, [0, [1, [2, [3]]]], {"k": [{"k": [{}]}]}, [{"a": 0}, {"a": 0}], {"": []}, [[], [], []]]
 
 
@@ -78,6 +78,23 @@ def case_in(c, epname, ep, shape):
             return ("aliased-in", "%s(%r): mutating the user-held argument afterwards changed %s -> %s" % (epname, shape, s0, s1))
     finally:
         res.destroy()
+    if env.is_buffered_class(c):
+        # the same inside a buffered context (no reload from the file hides a shared reference)
+        res = env.resource_for(c, sk)
+        try:
+            o = res.make(c)
+            arg = copy.deepcopy(shape)
+            with o.buffered:
+                apply_(o, arg)
+                v0 = model.canon_json(model.to_plain(o()))
+                mutate_all(arg)
+                v1 = model.canon_json(model.to_plain(o()))
+            f1 = model.canon_json(model.to_plain(res.make(c)()))
+            if v0 != v1 or f1 != v0:
+                return ("aliased-in-buffered", "%s(%r) inside obj.buffered: mutating the argument changed the view %s -> %s (file after exit %s)"
+                        % (epname, shape, v0, v1, f1))
+        finally:
+            res.destroy()
     return None
 
 
